@@ -85,4 +85,25 @@ ReplyOutcomes(SC, m, f, b) ==
 
 \* frames that get no reply at all: Unregister (session ends) and commands outside the supported grammar (C08: close)
 Silent(f) == f.kind \in {"unregister", "badcmd"}
+\* a representative reply for each allowed outcome (the model needs concrete reply octets to send)
+EncOut(C, r, o) ==
+  LET svc == SvcCode(r) IN
+  CASE o.k = "ok" /\ r.svc \in {"read", "readf"} -> EncReadReply(svc, o.st, <<>>, C.tags[r.tag].type, o.data)
+    [] o.k = "ok" -> EncPlainReply(svc, 0, <<>>)
+    [] o.k = "okbytes" -> EncDataReply(svc, 0, <<>>, o.data)
+    [] o.k = "err" -> EncPlainReply(svc, o.st, o.ext)
+    [] o.k = "anyfail" -> EncPlainReply(svc, 5, <<0>>)
+RepliesOf(SC, m, f) ==
+  CASE f.kind = "register" -> { EncEnip(CmdRegister, <<1, 0, 0, 0>>, 0, f.ctx, 0, RegisterPayload) }
+    [] f.kind \in {"listservices", "listidentity", "listinterfaces"} -> { EncEnip(KindCmd(f.kind), f.sess, 0, f.ctx, 0, <<0, 0>>) }
+    [] f.kind = "rr" /\ ~RouteAccepted(SC.pers, f) -> { EncEnip(CmdSendRR, f.sess, 8, f.ctx, 0, <<>>) }
+    [] f.kind = "rr" /\ f.req.svc # "multi" ->
+         { RRReply(f, EncOut(SC.cfg, f.req, o)) : o \in SingleOuts(SC.cfg, m, f.req) }
+         \cup (IF f.req.tag = 0 THEN { EncEnip(CmdSendRR, f.sess, 8, f.ctx, 0, <<>>) } ELSE {})
+    [] OTHER -> {}
+
+\* a reply frame that acknowledges a write-class service (Write Tag [Fragmented] 0xCD/0xD3, Set Attribute Single 0x90) with
+\* success, or answers a bundle as a whole (0x8A: its well-formed member writes may have been executed)
+AckWrite(b) == /\ WellFramed(b) /\ Len(b) >= 44 /\ HCmd(b) \in {111, 112}
+               /\ \E at \in {41, 47} : Len(b) >= at + 3 /\ ((b[at] \in {205, 211, 144} /\ b[at + 2] = 0) \/ b[at] = 138)
 =============================================================================
